@@ -2,6 +2,7 @@ SPECIFICATION Spec
 CONSTANTS
   Base = {"a", "x", "A", "0", ".", "-", "_", ":", "/", "@", "[", "]", "!"}
   MaxFlat = 5
+  FullLen = 4
   MaxMacroFlat = 3
   PartsLevel = 2
 INVARIANT MCLaws
